@@ -6,6 +6,7 @@
 From RtrV Require Import Pfx.TrieModel Pfx.TrieInv.
 From RtrV Require Import Base.CSem Gen.Generated Rtr.RtrModel Rtr.RelFrame Rtr.RecvBase Rtr.SendBase Rtr.RecvProofs
      Rtr.RecvChunk Rtr.RecvTable Rtr.SendProofs Rtr.SendSites.
+From RtrV Require Rtr.RecvExamples.   (* concrete instances *)
 Local Open Scope Z_scope.
 
 (* ---- (1) termination: all model functions are structural recursions (on the script, or on explicit fuel);
